@@ -87,7 +87,7 @@ def correspondence(ck, binpath, n, corpus):
         ck.tie_broken("harness c27 corr failed (rc=%s)" % rc, err[-3000:])
         return
     cases = []
-    for l in out.splitlines():
+    for l in jlines(out):
         if not l.strip():
             continue
         v = json.loads(l)
@@ -122,7 +122,7 @@ def search(ck, binpath, n, corpus):
     rc, out, err = ck.run_bin(binpath, args, timeout=3000)
     if rc != 0:
         ck.tie_broken("harness c27 search failed (rc=%s)" % rc, err[-3000:])   # partial output is still used below
-    for l in out.splitlines():
+    for l in jlines(out):
         if not l.strip():
             continue
         try:
@@ -144,7 +144,7 @@ def replay(ck, binpath, path):
             continue
         rc, out, err = ck.run_bin(binpath, ["one", "--case-json", json.dumps({"docs": case["docs"], "hist": case["hist"]}),
                                             "--dir", ck.work, "--repeat", 20], timeout=600)
-        for l in out.splitlines():
+        for l in jlines(out):
             if l.strip():
                 vv = json.loads(l)
                 if "signature" in vv:
